@@ -86,6 +86,12 @@ func (in *Interp) intrinsic(fn *ssa.Function, args []Val) (Val, bool) {
 		rt := fn.Signature.Results().At(0).Type()
 		z := in.zero(rt).(*ArrayV)
 		return in.frValue(rt, in.cfg.Field.Const(sext(t.C, t.Sort.W), wordW(z))), true
+	case name == "verifFToU64":
+		x := in.frRead(args[0])
+		if _, ok := in.cfg.Field.(gfpModel); ok {
+			return TupleV{in.s.Resize(x, 64, false), BoolConst(true)}, true
+		}
+		return TupleV{in.s.UF("fieldToU64", BVSort(64), x), in.s.UF("fieldIsU64", BoolSort, x)}, true
 	case name == "verifFEq":
 		return in.cfg.Field.Eq(in, in.frRead(args[0]), in.frRead(args[1])), true
 	case name == "verifFIsZero":
@@ -122,7 +128,7 @@ func (in *Interp) assertTrue(c *Term, msg string) {
 				m[n.Name] = modelValue(vals[i])
 			}
 		}
-		in.failures = append(in.failures, Failure{Msg: msg, Model: m, Path: in.ex.Trace(), Kind: "assert", Status: "sat"})
+		in.failures = append(in.failures, Failure{Msg: msg, Model: m, Path: in.ex.Trace(), Kind: "assert", Status: "sat", Chooses: in.ex.Chooses()})
 	case RUnknown:
 		in.failures = append(in.failures, Failure{Msg: msg, Path: in.ex.Trace(), Kind: "assert", Status: "unknown"})
 	}
